@@ -28,7 +28,7 @@ ASSUMPTIONS = [
     'the post-processed pair is judged only when both sides have the same number of lines after removals and the text oracle gives a definite set of unexcused pairs',
     'paths in messages contain no spaces (harness-chosen)',
 ]
-REQUIRED_MONITORS = ['config:two_suites_with_their_own_tmp_dir', 'fs:assertions_watched', 'artefact:raw_actual_checked', 'artefact:postprocessed_checked',
+REQUIRED_MONITORS = ['config:tmp_dir_created_after_construction', 'config:two_suites_with_their_own_tmp_dir', 'fs:assertions_watched', 'artefact:raw_actual_checked', 'artefact:postprocessed_checked',
                      'artefact:binary_checked', 'fs:passing_checked', 'msg:commands_parsed']
 REQUIRED_CLASSES = ['entry=string', 'entry=file', 'entry=files', 'entry=binary', 'outcome=fail', 'outcome=pass']
 
@@ -74,7 +74,16 @@ def setup(ctx):
 
     def assert_fn(ok, msg):
         _outcomes.append((bool(ok), msg))
+    late = mode in (0, 1) and ctx.shard % 4 in (0, 1)
+    if late:
+        # the configured directory is made only AFTER the test object exists (unittest builds its TestCase objects at
+        # collection time, a setUp makes the directory later): it is still the configured directory
+        import shutil
+        shutil.rmtree(_tmp)
+        ctx.rec.event('config:tmp_dir_created_after_construction')
     _rt = klass(assert_fn)
+    if late:
+        os.makedirs(_tmp)
     ctx.rec.cls('tmpdir_mode=%s' % ['set_defaults', 'TDDA_FAIL_DIR', 'TMPDIR'][mode])
     return _rt
 
